@@ -170,21 +170,19 @@ Qed.
 (* the pairs of a run of 1-bits *)
 Lemma s6_pairs_ones : forall k m, Forall (fun p => p = (true, 2 ^ Z.of_nat k - 1)) (s6_pairs k (repeat true m)).
 Proof.
-  intros k m. remember m as fuel eqn:Ef. assert (Hf : (m <= fuel)%nat) by lia. clear Ef.
-  revert m Hf. induction fuel as [|fuel IH]; intros m Hf.
-  - replace m with 0%nat by lia. constructor.
-  - destruct m as [|m]; [constructor|]. cbn [repeat]. rewrite s6_pairs_cons, repeat_length.
-    destruct (Nat.ltb_spec m k); [constructor|].
-    rewrite firstn_repeat, skipn_repeat, val_bits_ones by lia. constructor.
-    + f_equal. lia.
-    + apply IH. lia.
+  intros k m. induction m as [m IH] using lt_wf_ind.
+  destruct m as [|m]; [constructor|]. cbn [repeat]. rewrite s6_pairs_cons, repeat_length.
+  destruct (Nat.ltb_spec m k); [constructor|].
+  rewrite firstn_repeat, skipn_repeat, val_bits_ones by lia. constructor.
+  - f_equal. lia.
+  - apply IH. lia.
 Qed.
 
 Lemma neighbours_row : forall g i, simple g -> (i < gn g)%nat ->
   exists rest, neighbours g i = row g i ++ rest /\ Forall (fun u => (i < u)%nat) rest.
 Proof.
   intros g i [_ Hirr] Hi. unfold neighbours, row.
-  replace (gn g) with (i + (1 + (gn g - i - 1)))%nat at 1 by lia.
+  replace (gn g) with (i + (1 + (gn g - i - 1)))%nat by lia.
   rewrite seq_app, filter_app, (seq_app 1), filter_app. cbn [seq filter Nat.add]. rewrite Hirr. cbn [app].
   eexists. split; [reflexivity|].
   apply Forall_forall. intros u Hu. apply filter_In in Hu. destruct Hu as [Hu _]. apply in_seq in Hu. lia.
@@ -256,4 +254,230 @@ Proof.
     destruct r1 as [|u r1]; [reflexivity|]. exfalso. inversion F1; subst.
     assert (Hu : In u (neighbours g (gn g - 1))) by (rewrite E1, R1; left; reflexivity).
     apply filter_In in Hu. destruct Hu as [Hu _]. apply in_seq in Hu. lia.
+Qed.
+
+Lemma pow2_small : forall k : nat, (1 <= k <= 4)%nat ->
+  2 ^ Z.of_nat k = 2 \/ 2 ^ Z.of_nat k = 4 \/ 2 ^ Z.of_nat k = 8 \/ 2 ^ Z.of_nat k = 16.
+Proof.
+  intros k H. destruct k as [|[|[|[|[|k]]]]]; try lia; cbn; auto.
+Qed.
+
+Lemma s6_toks_nil : forall g, edges_lt g = [] -> s6_toks g = [].
+Proof. intros g H. unfold s6_toks. rewrite H. reflexivity. Qed.
+
+(* read from the final vertex pointer, the padding yields no edge *)
+Lemma pad_no_edge : forall g, simple g -> 2 <= Z.of_nat (gn g) <= 68719476735 ->
+  let n := Z.of_nat (gn g) in
+  let L := flat_map (tok_bits (s6_k n)) (s6_toks g) in
+  s6_edges n (Z.of_nat (final_v 0 (edges_lt g))) (s6_pairs (s6_k n) (s6_pad g L)) = [].
+Proof.
+  intros g Hs Hn n L. unfold s6_pad.
+  destruct (Nat.eqb_spec (length L mod 6) 0) as [|Hr]; [reflexivity|].
+  assert (Hne : edges_lt g <> []).
+  { intros E. apply Hr. unfold L. rewrite (s6_toks_nil g E). reflexivity. }
+  pose proof (Nat.mod_upper_bound (length L) 6 ltac:(lia)) as Hr6.
+  set (r := (length L mod 6)%nat) in *.
+  destruct (s6_k_bound n ltac:(lia)) as [[_ Hk2] Hk].
+  set (k := s6_k n) in *. set (X := 2 ^ Z.of_nat k - 1).
+  set (vf := final_v 0 (edges_lt g)).
+  destruct (s6_exc g r) eqn:Eexc.
+  - (* the exception: 0 then 1s *)
+    unfold s6_exc in Eexc. fold n in Eexc. fold k in Eexc.
+    apply andb_true_iff in Eexc. destruct Eexc as [E12 E3].
+    apply andb_true_iff in E12. destruct E12 as [E1 E2]. apply Z.leb_le in E2.
+    rewrite s6_pairs_cons, repeat_length.
+    destruct (Nat.ltb_spec (6 - r - 1) k); [lia|].
+    rewrite firstn_repeat, skipn_repeat, val_bits_ones by lia.
+    replace ((0 + 1) * 2 ^ Z.of_nat k - 1) with X by (unfold X; lia).
+    assert (HX : X = n - 1).
+    { unfold X.
+      assert (En : n = 2 \/ n = 4 \/ n = 8 \/ n = 16).
+      { rewrite !orb_true_iff, !Z.eqb_eq in E1. tauto. }
+      unfold k. destruct En as [En|[En|[En|En]]]; rewrite En; reflexivity. }
+    assert (Hvf : vf = (gn g - 2)%nat) by (apply final_v_exc; [exact Hs|lia|exact E3]).
+    cbn [s6_edges]. rewrite Hvf.
+    destruct (Z.ltb_spec (Z.of_nat (gn g - 2)) X); [|lia].
+    apply (s6_edges_ones n X); [apply s6_pairs_ones|lia|lia].
+  - (* 1s only *)
+    replace (6 - r)%nat with (S (6 - r - 1)) by lia. cbn [repeat].
+    rewrite s6_pairs_cons, repeat_length.
+    destruct (Nat.ltb_spec (6 - r - 1) k) as [|Hfit]; [reflexivity|].
+    rewrite firstn_repeat, skipn_repeat, val_bits_ones by lia.
+    replace ((0 + 1) * 2 ^ Z.of_nat k - 1) with X by (unfold X; lia).
+    cbn [s6_edges].
+    destruct (Z.ltb_spec (Z.of_nat vf + 1) X).
+    { apply (s6_edges_ones n X); [apply s6_pairs_ones|lia|unfold X; lia]. }
+    destruct (Z.ltb_spec (Z.of_nat vf + 1) n) as [Hbad|].
+    2:{ apply (s6_edges_ones n X); [apply s6_pairs_ones|lia|unfold X; lia]. }
+    (* v = n-2 and n = 2^k with room for a pair: the exception would have applied *)
+    exfalso.
+    assert (HX : X = n - 1) by (unfold X in *; lia).
+    assert (Hpow : 2 ^ Z.of_nat k = n) by (unfold X in HX; lia).
+    assert (Hk4 : (1 <= k <= 4)%nat) by lia.
+    assert (Hvf : vf = (gn g - 2)%nat) by lia.
+    pose proof (final_v_exc_inv g Hs ltac:(lia) Hne Hvf) as E3.
+    unfold s6_exc in Eexc. fold n in Eexc. fold k in Eexc. rewrite E3 in Eexc.
+    assert (E1 : (n =? 2) || (n =? 4) || (n =? 8) || (n =? 16) = true).
+    { rewrite !orb_true_iff, !Z.eqb_eq. destruct (pow2_small k Hk4) as [Hq|[Hq|[Hq|Hq]]]; lia. }
+    rewrite E1 in Eexc.
+    assert (E2 : (Z.of_nat k + 1 <=? 6 - Z.of_nat r) = true) by (apply Z.leb_le; lia).
+    rewrite E2 in Eexc. discriminate.
+Qed.
+
+(* ------------------------------------------------------------------ the string denotes the graph *)
+Lemma edges_lt_small : forall g, (gn g <= 1)%nat -> edges_lt g = [].
+Proof.
+  intros g H. rewrite edges_lt_rows. destruct (gn g) as [|[|m]]; [reflexivity|reflexivity|lia].
+Qed.
+
+(* Read by the format text, the string Sparse6Encode returns is a sparse6 string for exactly
+   the graph g: n and the edges {i,u}, each once, in ascending order. *)
+Theorem sparse6_encode_valid : forall g s, simple g -> Z.of_nat (gn g) <= 68719476735 ->
+  gm g < 100000000000000000 -> sparse6_encode g = Ok s ->
+  s6_spec_decode s = Some (Z.of_nat (gn g), edgesZ g).
+Proof.
+  intros g s Hs Hn Hm E.
+  destruct (Z.leb_spec (Z.of_nat (gn g)) 1) as [H1|H1].
+  { unfold edgesZ. rewrite edges_lt_small by lia. unfold sparse6_encode in E.
+    destruct (Z.leb_spec (Z.of_nat (gn g)) 1); [|lia]. injection E as <-.
+    destruct (gn g) as [|[|m]]; [reflexivity|reflexivity|lia]. }
+  destruct (sparse6_encode_bits g Hs ltac:(lia) Hm) as [E' Hmod]. rewrite E' in E. injection E as <-.
+  rewrite s6_spec_decode_bits by (try exact Hmod; lia). do 2 f_equal.
+  set (n := Z.of_nat (gn g)) in *. unfold s6_bits. fold n.
+  destruct (s6_k_bound n ltac:(lia)) as [[_ Hk2] _].
+  assert (Hok : rows_ok (gn g) 0 (edges_lt g)).
+  { rewrite edges_lt_rows. apply (rows_ok_from g (gn g) 0 0); lia. }
+  rewrite s6_pairs_toks.
+  2:{ unfold s6_toks. eapply Forall_impl; [|apply (toks_bound _ _ _ Hok)]. cbn beta. intros t Ht. fold n in Ht. lia. }
+  unfold s6_toks. change 0 with (Z.of_nat 0). unfold n at 1.
+  rewrite (s6_edges_toks _ _ _ _ Hok). fold n.
+  pose proof (pad_no_edge g Hs ltac:(lia)) as Hp. cbv zeta in Hp. fold n in Hp. unfold s6_toks in Hp.
+  rewrite Hp, app_nil_r. reflexivity.
+Qed.
+
+Theorem sparse6_encode_ok : forall g, simple g -> Z.of_nat (gn g) <= 68719476735 ->
+  gm g < 100000000000000000 ->
+  exists s, sparse6_encode g = Ok s /\ Forall (fun c => 63 <= c <= 126) (tl s) /\ hd 0 s = 58.
+Proof.
+  intros g Hs Hn Hm.
+  destruct (Z.leb_spec (Z.of_nat (gn g)) 1) as [H1|H1].
+  { unfold sparse6_encode. destruct (Z.leb_spec (Z.of_nat (gn g)) 1); [|lia].
+    eexists. split; [reflexivity|]. cbn [tl hd]. split; [|reflexivity].
+    destruct (gn g) as [|[|m]]; [repeat constructor; cbn; lia|repeat constructor; cbn; lia|lia]. }
+  destruct (sparse6_encode_bits g Hs ltac:(lia) Hm) as [E' _].
+  eexists. split; [exact E'|]. cbn [tl hd]. split; [|reflexivity].
+  apply Forall_app. split; [apply spec_N_range; lia|apply pack6_range].
+Qed.
+
+Theorem sparse6_encode_panic : forall g, 68719476735 < Z.of_nat (gn g) -> sparse6_encode g = Panic.
+Proof.
+  intros g Hn. unfold sparse6_encode.
+  destruct (Z.leb_spec (Z.of_nat (gn g)) 1); [lia|]. rewrite enc_size_panic by lia. reflexivity.
+Qed.
+
+(* ------------------------------------------------------------------ the edge list is already normal *)
+Fixpoint asc_from (p : Z * Z) (es : list (Z * Z)) : Prop :=
+  match es with
+  | [] => True
+  | e :: r => pair_lt p e = true /\ asc_from e r
+  end.
+
+Lemma asc_app : forall l1 l2 p, asc_from p l1 -> asc_from (last l1 p) l2 -> asc_from p (l1 ++ l2).
+Proof.
+  induction l1 as [|e l1 IH]; intros l2 p H1 H2; [exact H2|].
+  cbn [app asc_from] in *. destruct H1 as [A B]. split; [exact A|]. apply IH; [exact B|].
+  rewrite last_cons in H2. exact H2.
+Qed.
+
+Lemma pair_lt_spec : forall a b, pair_lt a b = true <-> (fst a < fst b \/ (fst a = fst b /\ snd a < snd b)).
+Proof.
+  intros a b. unfold pair_lt. rewrite orb_true_iff, andb_true_iff, !Z.ltb_lt, Z.eqb_eq. reflexivity.
+Qed.
+
+Lemma asc_filter_seq : forall (f : nat -> bool) (i : nat) len a p,
+  (fst p < Z.of_nat i \/ (fst p = Z.of_nat i /\ snd p < Z.of_nat a)) ->
+  asc_from p (map zpair (map (fun u => (i, u)) (filter f (seq a len)))).
+Proof.
+  intros f i. induction len as [|len IH]; intros a p H; [exact I|].
+  cbn [seq filter]. destruct (f a).
+  - cbn [map asc_from]. split.
+    + apply pair_lt_spec. unfold zpair. cbn [fst snd]. exact H.
+    + apply IH. right. unfold zpair. cbn [fst snd]. lia.
+  - apply IH. destruct H as [H|[H1 H2]]; [left; exact H|right; lia].
+Qed.
+
+Lemma last_in : forall {A} (l : list A) d, last l d = d \/ In (last l d) l.
+Proof.
+  intros A l. induction l as [|a l IH]; intros d; [left; reflexivity|].
+  rewrite last_cons. destruct (IH a) as [E|E]; right; [rewrite E; left; reflexivity|right; exact E].
+Qed.
+
+Lemma asc_rows_from : forall g len a p, fst p < Z.of_nat a -> asc_from p (map zpair (rows_from g a len)).
+Proof.
+  intros g. induction len as [|len IH]; intros a p H; [exact I|].
+  rewrite rows_from_S, map_app. apply asc_app.
+  - apply asc_filter_seq. left. exact H.
+  - apply IH. destruct (last_in (map zpair (map (fun u => (a, u)) (row g a))) p) as [E|E]; [rewrite E; lia|].
+    apply in_map_iff in E. destruct E as (e & <- & E). apply in_map_iff in E. destruct E as (u & <- & _).
+    unfold zpair. cbn [fst]. lia.
+Qed.
+
+Lemma fold_norm_asc : forall es el p, asc_from p es -> Forall (fun e => snd e < fst e) es ->
+  (el = [] \/ exists t, el = p :: t) ->
+  fold_left norm_step es el = rev es ++ el.
+Proof.
+  induction es as [|e r IH]; intros el p Ha Hf Hel; [reflexivity|].
+  cbn [asc_from] in Ha. destruct Ha as [A B]. inversion Hf as [|? ? He Hr]; subst.
+  cbn [fold_left rev]. rewrite <- app_assoc. cbn [app].
+  assert (Hstep : norm_step el e = e :: el).
+  { unfold norm_step. destruct (Z.eqb_spec (fst e) (snd e)); [lia|].
+    rewrite Z.max_l, Z.min_r by lia. rewrite <- surjective_pairing.
+    destruct Hel as [->|[t ->]]; [reflexivity|]. cbn [insert]. rewrite A. reflexivity. }
+  rewrite Hstep. apply (IH _ e); [exact B|exact Hr|right; eauto].
+Qed.
+
+Lemma edgesZ_lt : forall g, Forall (fun e => 0 <= snd e < fst e /\ fst e < Z.of_nat (gn g)) (edgesZ g).
+Proof.
+  intros g. unfold edgesZ.
+  assert (Hok : rows_ok (gn g) 0 (edges_lt g)).
+  { rewrite edges_lt_rows. apply (rows_ok_from g (gn g) 0 0); lia. }
+  revert Hok. generalize 0%nat. induction (edges_lt g) as [|e r IH]; intros v H; [constructor|].
+  cbn [rows_ok] in H. destruct H as (A & B & C & D). cbn [map]. constructor; [|apply (IH _ D)].
+  unfold zpair. cbn [fst snd]. lia.
+Qed.
+
+Lemma edgesZ_asc : forall g, asc_from (-1, -1) (edgesZ g).
+Proof.
+  intros g. unfold edgesZ. rewrite edges_lt_rows. apply (asc_rows_from g (gn g) 0). cbn. lia.
+Qed.
+
+Lemma norm_edgesZ : forall g, norm (edgesZ g) = edgesZ g.
+Proof.
+  intros g. unfold norm. rewrite (fold_norm_asc _ [] (-1, -1)).
+  - rewrite app_nil_r. apply rev_involutive.
+  - apply edgesZ_asc.
+  - eapply Forall_impl; [|apply edgesZ_lt]. cbn beta. intros e H. lia.
+  - left. reflexivity.
+Qed.
+
+(* ------------------------------------------------------------------ round trip *)
+Lemma strip_sparse : forall s, strip hdr_sparse6 (58 :: s) = 58 :: s.
+Proof. reflexivity. Qed.
+
+Lemma strip_sparse_hdr : forall s, strip hdr_sparse6 (hdr_sparse6 ++ s) = s.
+Proof. intros s. apply strip_app. Qed.
+
+(* Sparse6Decode(Sparse6Encode(g)) = g, with and without the optional header *)
+Theorem sparse6_roundtrip : forall g s, simple g -> Z.of_nat (gn g) <= 68719476735 ->
+  gm g < 100000000000000000 -> sparse6_encode g = Ok s ->
+  sparse6_decode s = Ok (Z.of_nat (gn g), edgesZ g) /\
+  sparse6_decode (hdr_sparse6 ++ s) = Ok (Z.of_nat (gn g), edgesZ g).
+Proof.
+  intros g s Hs Hn Hm E.
+  pose proof (sparse6_encode_valid g s Hs Hn Hm E) as V.
+  destruct (sparse6_encode_ok g Hs Hn Hm) as (s' & E' & _ & Hhd). rewrite E in E'. injection E' as <-.
+  destruct s as [|c s]; [discriminate|]. cbn [hd] in Hhd. subst c.
+  split.
+  - rewrite sparse6_decode_refines, strip_sparse. unfold s6_result. rewrite V, norm_edgesZ. reflexivity.
+  - rewrite sparse6_decode_refines, strip_sparse_hdr. unfold s6_result. rewrite V, norm_edgesZ. reflexivity.
 Qed.
